@@ -574,8 +574,429 @@ fn run_case(c: &[u64]) -> Option<Vec<u64>> {
         2 => run_mode2(c),
         3 => run_mode3(c),
         5 => fallback::run(c),
+        6 => run_mode6(c),
+        7 => run_mode7(c),
+        8 => sub_e2e::run(c),
         _ => None,
     }
+}
+
+// ------------------------------------------------------------------ mode 6: the transports'
+// `negotiate_protocol` (multistream-select under `tokio::time::timeout`) on both ends of the
+// scripted duplex, polled by hand under a paused tokio clock that the schedule script advances.
+
+type GFut<S> = Pin<Box<dyn Future<Output = Result<(u64, S), u64>>>>;
+
+enum GPhase<S> {
+    Neg(GFut<S>),
+    Write(S, usize),
+    Close(S),
+    Read(S, Vec<u8>),
+    Done,
+}
+
+struct GTask<S> {
+    phase: GPhase<S>,
+    payload: Vec<u8>,
+    res: (u64, u64),
+    got: Vec<u8>,
+    end: u64,
+}
+
+impl<S: AsyncRead + AsyncWrite + Unpin> GTask<S> {
+    fn new(fut: GFut<S>, payload: Vec<u8>) -> Self {
+        GTask { phase: GPhase::Neg(fut), payload, res: (99, 0), got: vec![], end: 98 }
+    }
+    fn done(&self) -> bool {
+        matches!(self.phase, GPhase::Done)
+    }
+    fn poll(&mut self, cx: &mut Context<'_>) {
+        loop {
+            match std::mem::replace(&mut self.phase, GPhase::Done) {
+                GPhase::Done => return,
+                GPhase::Neg(mut fut) => match fut.as_mut().poll(cx) {
+                    Poll::Pending => {
+                        self.phase = GPhase::Neg(fut);
+                        return;
+                    }
+                    Poll::Ready(Err(code)) => {
+                        self.res = (code, 0);
+                        return;
+                    }
+                    Poll::Ready(Ok((idx, io))) => {
+                        self.res = (0, idx);
+                        self.phase = GPhase::Write(io, 0);
+                    }
+                },
+                GPhase::Write(mut io, off) => {
+                    if off == self.payload.len() {
+                        self.phase = GPhase::Close(io);
+                        continue;
+                    }
+                    match Pin::new(&mut io).poll_write(cx, &self.payload[off..]) {
+                        Poll::Pending => {
+                            self.phase = GPhase::Write(io, off);
+                            return;
+                        }
+                        Poll::Ready(Ok(n)) => self.phase = GPhase::Write(io, off + n),
+                        Poll::Ready(Err(e)) => {
+                            self.end = 100 + io_code(&e);
+                            return;
+                        }
+                    }
+                }
+                GPhase::Close(mut io) => match Pin::new(&mut io).poll_close(cx) {
+                    Poll::Pending => {
+                        self.phase = GPhase::Close(io);
+                        return;
+                    }
+                    Poll::Ready(Ok(())) => self.phase = GPhase::Read(io, vec![]),
+                    Poll::Ready(Err(e)) => {
+                        self.end = 200 + io_code(&e);
+                        return;
+                    }
+                },
+                GPhase::Read(mut io, mut acc) => {
+                    let mut buf = [0u8; 64];
+                    match Pin::new(&mut io).poll_read(cx, &mut buf) {
+                        Poll::Pending => {
+                            self.phase = GPhase::Read(io, acc);
+                            return;
+                        }
+                        Poll::Ready(Ok(0)) => {
+                            self.got = acc;
+                            self.end = 0;
+                            return;
+                        }
+                        Poll::Ready(Ok(n)) => {
+                            acc.extend_from_slice(&buf[..n]);
+                            self.phase = GPhase::Read(io, acc);
+                        }
+                        Poll::Ready(Err(e)) => {
+                            self.got = acc;
+                            self.end = io_code(&e);
+                            return;
+                        }
+                    }
+                }
+            }
+        }
+    }
+}
+
+fn transport_code(e: &litep2p::error::NegotiationError) -> u64 {
+    use litep2p::error::NegotiationError as NE;
+    match e {
+        NE::Timeout => 9,
+        NE::MultistreamSelectError(e) => neg_code(e),
+        _ => 77,
+    }
+}
+
+/// the real `negotiate_protocol` of the chosen transport; the negotiated NAME is mapped back to its
+/// first position in `names`, and `Negotiated::inner()` is taken as `open_substream` /
+/// `accept_substream` do
+fn negotiate_fut(
+    transport: u64,
+    end: End,
+    dialer: bool,
+    names: Vec<Vec<u8>>,
+    timeout_ms: u64,
+) -> Option<GFut<End>> {
+    let strings: Vec<String> =
+        names.iter().map(|n| String::from_utf8(n.clone()).ok()).collect::<Option<_>>()?;
+    let timeout = std::time::Duration::from_millis(timeout_ms);
+    Some(Box::pin(async move {
+        let res = if transport == 0 {
+            litep2p::transport::tcp::verif::TcpConnection::verif_negotiate_protocol(
+                end, dialer, strings, timeout,
+            )
+            .await
+        } else {
+            litep2p::transport::websocket::verif::negotiate_protocol(end, dialer, strings, timeout)
+                .await
+        };
+        match res {
+            Ok((io, protocol)) => {
+                let idx = names.iter().position(|n| n.as_slice() == protocol.as_bytes());
+                Ok((idx.map(|i| i as u64).unwrap_or(888), io.inner()))
+            }
+            Err(e) => Err(transport_code(&e)),
+        }
+    }))
+}
+
+fn run_mode6(c: &[u64]) -> Option<Vec<u64>> {
+    let mut cur = Cur { c, i: 1 };
+    let transport = cur.n()?;
+    let to_d = cur.n()?;
+    let to_l = cur.n()?;
+    let lazy = cur.n()? != 0;
+    let pool = cur.pool()?;
+    let di = cur.list()?;
+    let li = cur.list()?;
+    let sched = cur.list()?;
+    let dl_r = cur.list()?;
+    let dl_w = cur.list()?;
+    let ld_r = cur.list()?;
+    let ld_w = cur.list()?;
+    let dpay = cur.bytes()?;
+    let lpay = cur.bytes()?;
+    if !cur.end() || lazy {
+        return None;
+    }
+    let ds = pick(&pool, &di)?;
+    let ls = pick(&pool, &li)?;
+    if ds.iter().chain(ls.iter()).any(|n| n.iter().any(|b| *b >= 128)) {
+        return None;
+    }
+    // durations beyond any schedule never fire; keep them representable
+    let cap = |t: u64| t.min(1 << 40);
+
+    let dl: Pipe = Rc::new(RefCell::new(PipeState {
+        rscript: dl_r.into(),
+        wscript: dl_w.into(),
+        ..Default::default()
+    }));
+    let ld: Pipe = Rc::new(RefCell::new(PipeState {
+        rscript: ld_r.into(),
+        wscript: ld_w.into(),
+        ..Default::default()
+    }));
+    let d_end = End { rx: ld.clone(), tx: dl.clone() };
+    let l_end = End { rx: dl.clone(), tx: ld.clone() };
+
+    let rt = tokio::runtime::Builder::new_current_thread()
+        .enable_time()
+        .start_paused(true)
+        .build()
+        .ok()?;
+    let clen = c.len();
+    let out = rt.block_on(async move {
+        let mut dt = GTask::new(negotiate_fut(transport, d_end, true, ds, cap(to_d))?, dpay);
+        let mut lt = GTask::new(negotiate_fut(transport, l_end, false, ls, cap(to_l))?, lpay);
+        let waker = noop_waker();
+        let mut cx = Context::from_waker(&waker);
+        let mut sched: VecDeque<u64> = sched.into();
+        let mut next = false;
+        let mut idle = 0u64;
+        let mut fuel = 2000 + 8 * clen;
+        let status;
+        loop {
+            if fuel == 0 {
+                status = 2;
+                break;
+            }
+            fuel -= 1;
+            if dt.done() && lt.done() {
+                status = 0;
+                break;
+            }
+            if idle >= 4 {
+                status = 1;
+                break;
+            }
+            let sig = |dt: &GTask<End>, lt: &GTask<End>| {
+                let mut v = dl.borrow().sig().to_vec();
+                v.extend(ld.borrow().sig());
+                v.push(dt.done() as u64);
+                v.push(lt.done() as u64);
+                v
+            };
+            match sched.pop_front() {
+                Some(x) if x >= 2 => {
+                    tokio::time::advance(std::time::Duration::from_millis(1)).await;
+                    idle = 0;
+                }
+                Some(x) => {
+                    let who = x != 0;
+                    if who {
+                        lt.poll(&mut cx);
+                    } else {
+                        dt.poll(&mut cx);
+                    }
+                    idle = 0;
+                    next = !who;
+                }
+                None => {
+                    let before = sig(&dt, &lt);
+                    if next {
+                        lt.poll(&mut cx);
+                    } else {
+                        dt.poll(&mut cx);
+                    }
+                    let after = sig(&dt, &lt);
+                    idle = if before == after { idle + 1 } else { 0 };
+                    next = !next;
+                }
+            }
+        }
+        let mut out = vec![1, status, dt.res.0, dt.res.1, lt.res.0, lt.res.1, dt.end, lt.end];
+        enc_bytes(&mut out, &dt.got);
+        enc_bytes(&mut out, &lt.got);
+        enc_bytes(&mut out, &dl.borrow().total);
+        enc_bytes(&mut out, &ld.borrow().total);
+        let left_dl: Vec<u8> = dl.borrow().buf.iter().copied().collect();
+        let left_ld: Vec<u8> = ld.borrow().buf.iter().copied().collect();
+        enc_bytes(&mut out, &left_dl);
+        enc_bytes(&mut out, &left_ld);
+        Some(out)
+    });
+    out
+}
+
+// ------------------------------------------------------------------ mode 7: the `Negotiated`
+// stream returned by the dialer as an I/O object: a script of read / write / flush / close
+// operations, each polled until Ready (the Pendings are counted), against a scripted closed input.
+
+fn run_mode7(c: &[u64]) -> Option<Vec<u64>> {
+    let mut cur = Cur { c, i: 1 };
+    let lazy = cur.n()? != 0;
+    let pool = cur.pool()?;
+    let ni = cur.list()?;
+    let rs = cur.list()?;
+    let ws = cur.list()?;
+    let input = cur.bytes()?;
+    let nops = cur.n()? as usize;
+    if nops > c.len() {
+        return None;
+    }
+    enum Op {
+        Read(usize),
+        Write(Vec<u8>),
+        Flush,
+        Close,
+    }
+    let mut ops = vec![];
+    for _ in 0..nops {
+        ops.push(match cur.n()? {
+            0 => {
+                let k = cur.n()?;
+                if k == 0 {
+                    return None;
+                }
+                Op::Read(k.min(1 << 20) as usize)
+            }
+            1 => {
+                let b = cur.bytes()?;
+                if b.is_empty() {
+                    return None;
+                }
+                Op::Write(b)
+            }
+            2 => Op::Flush,
+            3 => Op::Close,
+            _ => return None,
+        });
+    }
+    if !cur.end() {
+        return None;
+    }
+    let ns = pick(&pool, &ni)?;
+    let items: Vec<Item> = ns.into_iter().enumerate().map(|(i, n)| Item(i as u64, n)).collect();
+    let fuel = 4 + rs.len() + ws.len();
+    let inp: Pipe = Rc::new(RefCell::new(PipeState {
+        buf: input.into(),
+        closed: true,
+        rscript: rs.into(),
+        ..Default::default()
+    }));
+    let outp: Pipe = Rc::new(RefCell::new(PipeState { wscript: ws.into(), ..Default::default() }));
+    let end = End { rx: inp.clone(), tx: outp.clone() };
+    let version = if lazy { Version::V1Lazy } else { Version::V1 };
+    let waker = noop_waker();
+    let mut cx = Context::from_waker(&waker);
+
+    let mut fut: NegFut = Box::pin(dialer_select_proto(end, items, version));
+    let mut np = 0u64;
+    let mut res = None;
+    for _ in 0..fuel {
+        match fut.as_mut().poll(&mut cx) {
+            Poll::Pending => np += 1,
+            Poll::Ready(r) => {
+                res = Some(r);
+                break;
+            }
+        }
+    }
+    drop(fut);
+    let dump = |out: &mut Vec<u64>, state: u64| {
+        out.push(state);
+        out.push(outp.borrow().closed as u64);
+        enc_bytes(out, &outp.borrow().total);
+        let left: Vec<u8> = inp.borrow().buf.iter().copied().collect();
+        enc_bytes(out, &left);
+    };
+    let mut out = vec![1];
+    let mut neg = match res {
+        None => {
+            out.extend([99, 0, np]);
+            dump(&mut out, 2);
+            return Some(out);
+        }
+        Some(Err(e)) => {
+            out.extend([neg_code(&e), 0, np]);
+            dump(&mut out, 2);
+            return Some(out);
+        }
+        Some(Ok((item, neg))) => {
+            out.extend([0, item.0, np]);
+            neg
+        }
+    };
+    for op in ops {
+        let mut np = 0u64;
+        let mut result: Vec<u64> = vec![0];
+        for _ in 0..fuel {
+            let r: Poll<Vec<u64>> = match &op {
+                Op::Read(k) => {
+                    let mut buf = vec![0u8; *k];
+                    match Pin::new(&mut neg).poll_read(&mut cx, &mut buf) {
+                        Poll::Pending => Poll::Pending,
+                        Poll::Ready(Ok(n)) => {
+                            let mut v = vec![1];
+                            enc_bytes(&mut v, &buf[..n]);
+                            Poll::Ready(v)
+                        }
+                        Poll::Ready(Err(e)) => Poll::Ready(vec![3, io_code(&e)]),
+                    }
+                }
+                Op::Write(data) => match Pin::new(&mut neg).poll_write(&mut cx, data) {
+                    Poll::Pending => Poll::Pending,
+                    Poll::Ready(Ok(n)) => Poll::Ready(vec![2, n as u64]),
+                    Poll::Ready(Err(e)) => Poll::Ready(vec![3, io_code(&e)]),
+                },
+                Op::Flush => match Pin::new(&mut neg).poll_flush(&mut cx) {
+                    Poll::Pending => Poll::Pending,
+                    Poll::Ready(Ok(())) => Poll::Ready(vec![2, 0]),
+                    Poll::Ready(Err(e)) => Poll::Ready(vec![3, io_code(&e)]),
+                },
+                Op::Close => match Pin::new(&mut neg).poll_close(&mut cx) {
+                    Poll::Pending => Poll::Pending,
+                    Poll::Ready(Ok(())) => Poll::Ready(vec![2, 0]),
+                    Poll::Ready(Err(e)) => Poll::Ready(vec![3, io_code(&e)]),
+                },
+            };
+            match r {
+                Poll::Pending => np += 1,
+                Poll::Ready(v) => {
+                    result = v;
+                    break;
+                }
+            }
+        }
+        out.push(match op {
+            Op::Read(_) => 0,
+            Op::Write(_) => 1,
+            Op::Flush => 2,
+            Op::Close => 3,
+        });
+        out.push(np);
+        out.extend(result);
+    }
+    let state = neg.verif_state() as u64;
+    dump(&mut out, state);
+    Some(out)
 }
 
 // ------------------------------------------------------------------ generators
@@ -940,6 +1361,114 @@ fn gen_mode3(rng: &mut Rng) -> Vec<u64> {
     c
 }
 
+/// mode 6: both ends through the transports' `negotiate_protocol`; the schedule script interleaves
+/// polls with clock ticks, the timeouts are drawn around the number of ticks so that none, one or
+/// both wrappers fire at various points of the negotiation
+fn gen_mode6(rng: &mut Rng) -> Vec<u64> {
+    let pool = catalog(rng, false, true);
+    let ns = rng.range(0, 60);
+    let tick_pct = rng.pick(&[0u64, 5, 15, 30, 50]);
+    let sched: Vec<u64> =
+        (0..ns).map(|_| if rng.chance(tick_pct) { 2 } else { rng.below(2) }).collect();
+    let ticks = sched.iter().filter(|x| **x >= 2).count() as u64;
+    let mut timeout = |rng: &mut Rng| -> u64 {
+        match rng.below(6) {
+            0 => 0,
+            1 => rng.below(ticks + 1),
+            2 => rng.below(ticks / 2 + 1),
+            3 => ticks + 1,
+            _ => 10_000,
+        }
+    };
+    let to_d = timeout(rng);
+    let to_l = timeout(rng);
+    let mut c = vec![6, rng.below(2), to_d, to_l, 0];
+    push_pool(&mut c, &pool);
+    // open_substream: the main name followed by its fallback names
+    let nd = rng.below(6);
+    let nl = rng.below(6);
+    let di: Vec<u64> = (0..nd).map(|_| rng.below(pool.len() as u64)).collect();
+    let li: Vec<u64> = (0..nl).map(|_| rng.below(pool.len() as u64)).collect();
+    push_list(&mut c, &di);
+    push_list(&mut c, &li);
+    push_list(&mut c, &sched);
+    for _ in 0..4 {
+        c.extend(script(rng, 20));
+    }
+    let dp = gen_payload(rng, &pool);
+    let lp = gen_payload(rng, &pool);
+    push_bytes(&mut c, &dp);
+    push_bytes(&mut c, &lp);
+    c
+}
+
+/// mode 7: the stream of a single-name dialer (mostly the optimistic variant) against a scripted
+/// listener: header and confirmation (sometimes a rejection, another name, a second header,
+/// garbage, a truncation) followed by application bytes, then a script of stream operations
+fn gen_mode7(rng: &mut Rng) -> Vec<u64> {
+    let lazy = rng.chance(85);
+    let pool = catalog(rng, false, false);
+    let mut c = vec![7, lazy as u64];
+    push_pool(&mut c, &pool);
+    let me = rng.below(pool.len() as u64);
+    let ni: Vec<u64> = if rng.chance(92) { vec![me] } else { vec![me, rng.below(pool.len() as u64)] };
+    push_list(&mut c, &ni);
+    c.extend(script(rng, 25));
+    c.extend(script(rng, 12));
+    let mut h = HEADER.to_vec();
+    h.push(b'\n');
+    let mut line = pool[me as usize].clone();
+    line.truncate(300);
+    line.push(b'\n');
+    let mut other = pool[rng.below(pool.len() as u64) as usize].clone();
+    other.truncate(300);
+    other.push(b'\n');
+    let mut input = vec![];
+    match rng.below(20) {
+        0 => {}
+        1 => input.extend(frame_of(&line)),
+        _ => input.extend(frame_of(&h)),
+    }
+    match rng.below(20) {
+        0 => input.extend(frame_of(b"na\n")),
+        1 => input.extend(frame_of(&other)),
+        2 => input.extend(frame_of(&h)),
+        3 => input.extend(frame_of(b"ls\n")),
+        4 => {}
+        5 => input.extend((0..rng.range(1, 12)).map(|_| rng.next() as u8)),
+        _ => input.extend(frame_of(&line)),
+    }
+    if rng.chance(8) {
+        input = mutate(rng, input);
+    }
+    // application bytes of the listener, sometimes looking like negotiation frames
+    let tail = gen_payload(rng, &pool);
+    input.extend(tail);
+    push_bytes(&mut c, &input);
+    let nops = rng.range(1, 8);
+    c.push(nops);
+    for _ in 0..nops {
+        match rng.below(10) {
+            0 | 1 | 2 | 3 => {
+                c.push(0);
+                c.push(rng.pick(&[1u64, 1, 2, 5, 19, 20, 21, 64, 300]));
+            }
+            4 | 5 | 6 => {
+                c.push(1);
+                let data = match rng.below(4) {
+                    0 => frame_of(b"na\n"),
+                    1 => frame_of(&line),
+                    _ => (0..rng.range(1, 40)).map(|_| rng.next() as u8).collect(),
+                };
+                push_bytes(&mut c, &data);
+            }
+            7 | 8 => c.push(2),
+            _ => c.push(3),
+        }
+    }
+    c
+}
+
 fn exec(c: &[u64]) -> Vec<u64> {
     catch_unwind(AssertUnwindSafe(|| run_case(c)))
         .unwrap_or(Some(vec![PANIC_MARK]))
@@ -970,11 +1499,19 @@ pub fn main(args: &Args) {
     }
     for i in 0..ncases {
         let mut r = rng.fork();
-        let c = match i % 10 {
-            0 | 1 => gen_mode1(&mut r),
-            2 => gen_mode2(&mut r),
-            3 | 4 => gen_mode3(&mut r),
-            9 => fallback::gen(&mut r),
+        // a request between two real nodes (loopback TCP / WebSocket): a few per run
+        if i % 100 == 7 {
+            let c = sub_e2e::gen(&mut r);
+            out.emit(&c, &exec(&c));
+            continue;
+        }
+        let c = match i % 20 {
+            0 | 1 | 10 => gen_mode1(&mut r),
+            2 | 12 => gen_mode2(&mut r),
+            3 | 4 | 13 => gen_mode3(&mut r),
+            9 | 19 => fallback::gen(&mut r),
+            5 | 11 | 15 => gen_mode6(&mut r),
+            6 | 14 | 16 => gen_mode7(&mut r),
             _ => gen_mode0(&mut r, thorough),
         };
         out.emit(&c, &exec(&c));
@@ -1433,4 +1970,354 @@ mod fallback {
         c
     }
 
+}
+
+// ------------------------------------------------------------------ mode 8
+/// C03, mode 8: a substream opened with fallback names between two real nodes.
+mod sub_e2e {
+    // Case / trace formats: coq/C03/Sub.v. Two `Litep2p` instances over loopback TCP or
+    // WebSocket; every entry of a configuration is a request-response protocol (main name +
+    // fallback names). Protocol k of node A sends one request to node B (dialing it): the real
+    // `open_substream` proposes main :: fallbacks, B's `accept_substream` offers the names of its
+    // ProtocolSet, both ends go through `report_substream_open`. Observed: A's terminal event
+    // (response with the fallback used, or failure) and which protocol of B received the request,
+    // with which fallback.
+    use crate::util::Rng;
+    use futures::StreamExt;
+    use litep2p::{
+        config::ConfigBuilder,
+        crypto::ed25519::Keypair,
+        protocol::request_response::{
+            ConfigBuilder as RrBuilder, DialOptions, RequestResponseEvent, RequestResponseHandle,
+        },
+        transport::{tcp::config::Config as TcpConfig, websocket::config::Config as WsConfig},
+        types::protocol::ProtocolName,
+        Litep2p,
+    };
+    use std::{sync::OnceLock, time::Duration};
+    use tokio::sync::mpsc;
+
+    const HEADER: &[u8] = b"/multistream/1.0.0";
+
+    struct Cur<'a> {
+        c: &'a [u64],
+        i: usize,
+    }
+    impl<'a> Cur<'a> {
+        fn n(&mut self) -> Option<u64> {
+            let v = *self.c.get(self.i)?;
+            self.i += 1;
+            Some(v)
+        }
+        fn count(&mut self) -> Option<usize> {
+            let k = self.n()?;
+            if k > (self.c.len() - self.i) as u64 {
+                return None;
+            }
+            Some(k as usize)
+        }
+        fn list(&mut self) -> Option<Vec<u64>> {
+            let k = self.count()?;
+            let v = self.c[self.i..self.i + k].to_vec();
+            self.i += k;
+            Some(v)
+        }
+        fn name(&mut self) -> Option<Vec<u8>> {
+            let runs = self.count()?;
+            let mut out = vec![];
+            for _ in 0..runs {
+                let c = self.n()?;
+                let b = self.n()?;
+                if c > 20000 {
+                    return None;
+                }
+                out.extend(std::iter::repeat(b as u8).take(c as usize));
+                if b >= 256 {
+                    return None;
+                }
+            }
+            Some(out)
+        }
+    }
+
+    type Cfg = Vec<(usize, Vec<usize>)>;
+
+    struct Case {
+        transport: u64,
+        pool: Vec<Vec<u8>>,
+        a: Cfg,
+        b: Cfg,
+        k: usize,
+    }
+
+    fn name_ok(n: &[u8]) -> bool {
+        n.iter().all(|b| *b < 128)
+            && n.first() == Some(&b'/')
+            && !n.contains(&b'\n')
+            && n != HEADER
+            && n.len() <= 64
+    }
+
+    /// wf_cfgb of Fallback.v on pool NAMES (two pool entries may hold the same name)
+    fn wf(pool: &[Vec<u8>], cfg: &Cfg) -> bool {
+        let name = |i: &usize| &pool[*i];
+        for (x, (m, _)) in cfg.iter().enumerate() {
+            if cfg.iter().skip(x + 1).any(|(m2, _)| name(m2) == name(m)) {
+                return false;
+            }
+        }
+        for (_, fs) in cfg.iter() {
+            for f in fs {
+                if cfg.iter().any(|(m, _)| name(m) == name(f)) {
+                    return false;
+                }
+            }
+        }
+        for (m1, fs1) in cfg.iter() {
+            for (m2, fs2) in cfg.iter() {
+                for f in fs1 {
+                    if fs2.iter().any(|g| name(g) == name(f)) && name(m1) != name(m2) {
+                        return false;
+                    }
+                }
+            }
+        }
+        true
+    }
+
+    fn decode(c: &[u64]) -> Option<Case> {
+        let mut cur = Cur { c, i: 0 };
+        if cur.n()? != 8 {
+            return None;
+        }
+        let transport = cur.n()?;
+        let k = cur.count()?;
+        let pool: Vec<Vec<u8>> = (0..k).map(|_| cur.name()).collect::<Option<_>>()?;
+        let mut cfgs = vec![];
+        for _ in 0..2 {
+            let k = cur.count()?;
+            let mut cfg = vec![];
+            for _ in 0..k {
+                let m = cur.n()?;
+                let fs = cur.list()?;
+                cfg.push((m, fs));
+            }
+            cfgs.push(cfg);
+        }
+        let kk = cur.n()?;
+        if cur.i != c.len() {
+            return None;
+        }
+        if !pool.iter().all(|n| name_ok(n)) {
+            return None;
+        }
+        let idx = |x: u64| -> Option<usize> { (x < pool.len() as u64).then_some(x as usize) };
+        let res = |cfg: Vec<(u64, Vec<u64>)>| -> Option<Cfg> {
+            cfg.into_iter()
+                .map(|(m, fs)| Some((idx(m)?, fs.into_iter().map(idx).collect::<Option<_>>()?)))
+                .collect()
+        };
+        let b = res(cfgs.pop()?)?;
+        let a = res(cfgs.pop()?)?;
+        let size_ok = |c: &Cfg| (1..=4).contains(&c.len());
+        if !(size_ok(&a) && size_ok(&b) && wf(&pool, &a) && wf(&pool, &b) && kk < a.len() as u64) {
+            return None;
+        }
+        Some(Case { transport, pool, a, b, k: kk as usize })
+    }
+
+    fn pname(b: &[u8]) -> ProtocolName {
+        ProtocolName::from(String::from_utf8(b.to_vec()).expect("ascii"))
+    }
+
+    fn rt() -> &'static tokio::runtime::Runtime {
+        static RT: OnceLock<tokio::runtime::Runtime> = OnceLock::new();
+        RT.get_or_init(|| {
+            tokio::runtime::Builder::new_multi_thread().worker_threads(2).enable_all().build().unwrap()
+        })
+    }
+
+    fn build(case: &Case, cfg: &Cfg) -> Option<(Litep2p, Vec<RequestResponseHandle>)> {
+        let mut builder = ConfigBuilder::new().with_keypair(Keypair::generate());
+        builder = if case.transport == 1 {
+            builder.with_websocket(WsConfig {
+                listen_addresses: vec!["/ip4/127.0.0.1/tcp/0/ws".parse().unwrap()],
+                reuse_port: false,
+                ..Default::default()
+            })
+        } else {
+            builder.with_tcp(TcpConfig {
+                listen_addresses: vec!["/ip4/127.0.0.1/tcp/0".parse().unwrap()],
+                reuse_port: false,
+                ..Default::default()
+            })
+        };
+        let mut handles = vec![];
+        for (m, fs) in cfg {
+            let (config, handle) = RrBuilder::new(pname(&case.pool[*m]))
+                .with_fallback_names(fs.iter().map(|f| pname(&case.pool[*f])).collect())
+                .with_max_size(1024)
+                .with_timeout(Duration::from_secs(5))
+                .build();
+            builder = builder.with_request_response_protocol(config);
+            handles.push(handle);
+        }
+        Some((Litep2p::new(builder.build()).ok()?, handles))
+    }
+
+    fn canon(pool: &[Vec<u8>], name: &[u8]) -> u64 {
+        pool.iter().position(|n| n.as_slice() == name).map(|i| i as u64 + 1).unwrap_or(777)
+    }
+
+    pub fn run(c: &[u64]) -> Option<Vec<u64>> {
+        let case = decode(c)?;
+        rt().block_on(async {
+            let (mut node_a, mut handles_a) = build(&case, &case.a)?;
+            let (mut node_b, handles_b) = build(&case, &case.b)?;
+            let peer_b = *node_b.local_peer_id();
+            let addr_b = node_b.listen_addresses().next()?.clone();
+            let addr_b = if addr_b.iter().any(|p| matches!(p, multiaddr::Protocol::P2p(_))) {
+                addr_b
+            } else {
+                addr_b.with(multiaddr::Protocol::P2p(peer_b.into()))
+            };
+            node_a.add_known_address(peer_b, std::iter::once(addr_b));
+
+            let mut tasks = vec![];
+            tasks.push(tokio::spawn(async move { while node_a.next_event().await.is_some() {} }));
+            tasks.push(tokio::spawn(async move { while node_b.next_event().await.is_some() {} }));
+            // B: every protocol answers every request and reports (main index, fallback)
+            let (seen_tx, mut seen_rx) = mpsc::unbounded_channel::<(usize, Option<ProtocolName>)>();
+            for (j, mut handle) in handles_b.into_iter().enumerate() {
+                let tx = seen_tx.clone();
+                tasks.push(tokio::spawn(async move {
+                    while let Some(ev) = handle.next().await {
+                        if let RequestResponseEvent::RequestReceived { request_id, fallback, .. } = ev {
+                            let _ = tx.send((j, fallback));
+                            handle.send_response(request_id, vec![42]);
+                        }
+                    }
+                }));
+            }
+            drop(seen_tx);
+
+            let mut sender = handles_a.remove(case.k);
+            // the other protocols of A are kept alive (and polled) as well
+            for mut handle in handles_a {
+                tasks.push(tokio::spawn(async move { while handle.next().await.is_some() {} }));
+            }
+            let sent = sender.send_request(peer_b, vec![7, 7, 7], DialOptions::Dial).await;
+            let mut out = vec![1];
+            let outcome = if sent.is_err() {
+                None
+            } else {
+                tokio::time::timeout(Duration::from_secs(20), async {
+                    loop {
+                        match sender.next().await {
+                            Some(RequestResponseEvent::ResponseReceived { fallback, .. }) =>
+                                break Some(Some(fallback)),
+                            Some(RequestResponseEvent::RequestFailed { .. }) => break Some(None),
+                            Some(_) => {}
+                            None => break None,
+                        }
+                    }
+                })
+                .await
+                .ok()
+                .flatten()
+            };
+            match outcome {
+                Some(Some(fallback)) => {
+                    out.push(0);
+                    out.push(fallback.map(|f| canon(&case.pool, f.as_bytes())).unwrap_or(0));
+                }
+                Some(None) => out.extend([1, 0]),
+                None => out.extend([9, 0]),
+            }
+            // what B saw (a response implies that B has recorded the request before answering)
+            let seen = tokio::time::timeout(Duration::from_millis(300), seen_rx.recv()).await.ok().flatten();
+            match seen {
+                Some((j, fallback)) => {
+                    out.push(canon(&case.pool, &case.pool[case.b[j].0]));
+                    out.push(fallback.map(|f| canon(&case.pool, f.as_bytes())).unwrap_or(0));
+                }
+                None => out.extend([0, 0]),
+            }
+            for t in tasks {
+                t.abort();
+            }
+            Some(out)
+        })
+    }
+
+    fn rle(b: &[u8]) -> Vec<u64> {
+        let mut runs: Vec<(u64, u8)> = vec![];
+        for x in b {
+            match runs.last_mut() {
+                Some((c, y)) if y == x => *c += 1,
+                _ => runs.push((1, *x)),
+            }
+        }
+        let mut out = vec![runs.len() as u64];
+        for (c, b) in runs {
+            out.extend([c, b as u64]);
+        }
+        out
+    }
+
+    /// two well-formed configurations over a small pool of versioned names: B offers a subset of
+    /// A's names (often several of them, so the preference order matters), as mains or fallbacks
+    pub fn gen(rng: &mut Rng) -> Vec<u64> {
+        let names: Vec<&[u8]> = vec![
+            b"/req/4", b"/req/3", b"/req/2", b"/req/1", b"/sync/2", b"/sync/1", b"/x", b"/x/legacy",
+            b"/aaaaaaaaaaaaaaaa/req/2", b"/other",
+        ];
+        let pool: Vec<Vec<u8>> = names.iter().map(|n| n.to_vec()).collect();
+        // `front`: names to be used first (with probability 2/3 per draw)
+        let cfg = |rng: &mut Rng, front: &[u64]| -> Vec<(u64, Vec<u64>)> {
+            let mut free: Vec<u64> = front.to_vec();
+            free.extend((0..pool.len() as u64).filter(|x| !front.contains(x)));
+            let mut nfront = front.len();
+            let mut take = |rng: &mut Rng, free: &mut Vec<u64>| -> u64 {
+                let i = if nfront > 0 && rng.chance(66) {
+                    rng.below(nfront as u64) as usize
+                } else {
+                    rng.below(free.len() as u64) as usize
+                };
+                if i < nfront {
+                    nfront -= 1;
+                }
+                free.remove(i)
+            };
+            let n = rng.range(1, 3);
+            let mut out = vec![];
+            for _ in 0..n {
+                let m = take(rng, &mut free);
+                let nf = rng.below(4).min(free.len() as u64 - 1);
+                let fs: Vec<u64> = (0..nf).map(|_| take(rng, &mut free)).collect();
+                out.push((m, fs));
+            }
+            out
+        };
+        let a = cfg(rng, &[]);
+        let k = rng.below(a.len() as u64);
+        // B mostly offers several of the names that A's sending protocol proposes
+        let mut proposed: Vec<u64> = vec![a[k as usize].0];
+        proposed.extend(a[k as usize].1.iter().copied());
+        let b = if rng.chance(75) { cfg(rng, &proposed) } else { cfg(rng, &[]) };
+        let mut c = vec![8, rng.below(2), pool.len() as u64];
+        for n in &pool {
+            c.extend(rle(n));
+        }
+        for cf in [&a, &b] {
+            c.push(cf.len() as u64);
+            for (m, fs) in cf {
+                c.push(*m);
+                c.push(fs.len() as u64);
+                c.extend(fs);
+            }
+        }
+        c.push(k);
+        c
+    }
 }
